@@ -550,6 +550,7 @@ class TokenizerModel:
         # missing means the recogniser does not understand the state
         self.cdata_eof_exit = facts.pop("eof") or any(
             isinstance(n, ast.If) and "EOF" in norm(n.test) and any(isinstance(x, ast.Break) for x in n.body) for n in ast.walk(m.node))
+        self.cdata_nul_replaced = facts.pop("nul")          # judged by C02.4 (the standard leaves NUL to tree construction)
         bad = [k for k, v in facts.items() if not v]
         # the terminator: `if <last piece ends with ]]>: <last piece> = <last piece without the two brackets>; break`
         self.cdata_terminator = None
